@@ -577,6 +577,39 @@ class SamplingMethod(DirectMethod):
             self.set_initial_with_grid(stage, opti, stage._initial)
             self.set_parameter(stage, opti)
 
+    def to_function(self, stage, name, args, results, *margs):
+        # Variables the time grid owns (local start times / interval lengths)
+        own = []
+        if self.time_grid.localize_t0:
+            own += [self.t0_local[k] for k in range(1, self.N+1)]
+        if self.time_grid.localize_T:
+            own += [self.T_local[k] for k in range(not isinstance(self.time_grid, FreeGrid), self.N)]
+        vargs = [stage.value(a) for a in args]
+        all_args = vvcat(vargs)
+        horizon = [e for e in [self.t0, self.T] if isinstance(e, MX) and e.is_symbolic()]
+        if not own or not any(ca.depends_on(all_args, e) for e in horizon) or ca.depends_on(all_args, vvcat(own)):
+            return DirectMethod.to_function(self, stage, name, args, results, *margs)
+        # The horizon (its guess, or the value of its parameter) is an argument:
+        # as with set_initial / set_value, the grid's own variables start on the grid that this horizon implies
+        inner_margs = list(margs)
+        if len(margs)>0 and isinstance(margs[0], list) and np.all([isinstance(e,str) for e in margs[0]]):
+            inner_margs[0] = list(margs[0])+["time_grid_vars"]
+        f = DirectMethod.to_function(self, stage, name, list(args)+[vvcat(own)], results, *inner_margs)
+        f_args = f.mx_in()[:len(args)]
+        opti = self.opti
+        def guess(e):
+            for a, f_a in zip(vargs, f_args):
+                if isinstance(a, MX) and a.shape==e.shape and is_equal(a, e):
+                    return f_a
+            return opti.debug.value(e, opti.initial())
+        grid = self.time_grid(guess(self.t0), guess(self.T), self.N)
+        own_init = []
+        if self.time_grid.localize_t0:
+            own_init += [grid[k] for k in range(1, self.N+1)]
+        if self.time_grid.localize_T:
+            own_init += [grid[k+1]-grid[k] for k in range(not isinstance(self.time_grid, FreeGrid), self.N)]
+        return Function(name, f_args, f.call(list(f_args)+[vcat(own_init)],True,False), *margs)
+
     def set_initial_with_grid(self, stage, master, initial_user):
         """Apply the guesses, including those the time grid derives from the guessed (or parametric) horizon"""
         opti = master.opti if hasattr(master, 'opti') else master
